@@ -285,18 +285,21 @@ func checkC14(p *Prog, r *Report) {
 		r.Check(has(w.Basics, Rel(mod)), kp("WIRE", "ModuleBasics∋"+mod), "the module's codec registration is reached from ModuleBasics", "app/app.go", "present", mod+".AppModuleBasic is not in ModuleBasics: its messages are unknown to the tx decoder and amino codec")
 	}
 	if mk := p.Func(Rel("app/params"), "MakeEncodingConfig"); mk != nil {
-		ok := false
-		for _, cs := range findCalls(mk, "x/auth/tx.NewTxConfig") {
-			args := cs.Instr.Common().Args
-			if len(args) >= 2 {
-				if u, isU := args[1].(*ssa.UnOp); isU {
-					if g, isG := u.X.(*ssa.Global); isG && g.Name() == "DefaultSignModes" {
-						ok = true
-					}
-				}
+		// the TxConfig the application is built with IS tx.NewTxConfig(codec, tx.DefaultSignModes): no additional or substituted
+		// sign-mode handler (a custom handler's sign bytes are outside everything decided here)
+		mo := NewOrigin(p, mk)
+		ok, n, got := true, 0, ""
+		for _, ret := range returnsOf(mk) {
+			n++
+			t := mo.Of(ret.Results[0])
+			tc := t.Field("TxConfig")
+			got = fmt.Sprint(tc)
+			if !(tc != nil && tc.IsCall("x/auth/tx.NewTxConfig") && len(tc.Args) == 2 && tc.Args[1].Op == "gval" && strings.HasSuffix(tc.Args[1].Name, "x/auth/tx.DefaultSignModes")) {
+				ok = false
 			}
 		}
-		r.Check(ok, kp("WIRE", "TxConfig=DefaultSignModes"), "the accepted signing modes are the SDK's defaults (direct, textual?, legacy amino JSON)", p.FnPos(mk), "tx.NewTxConfig(codec, tx.DefaultSignModes)", "sign modes are customised")
+		r.Check(ok && n > 0, kp("WIRE", "TxConfig=DefaultSignModes"), "the accepted signing modes are the SDK's defaults (direct, direct-aux, legacy amino JSON) with the SDK's own handlers", p.FnPos(mk), "EncodingConfig.TxConfig ≡ tx.NewTxConfig(codec, tx.DefaultSignModes)",
+			"EncodingConfig.TxConfig = "+clip(got, 200)+": sign modes or their handlers are customised — the sign bytes of an added mode are not covered by any of the injectivity arguments")
 	} else {
 		r.Fail(kp("WIRE", "TxConfig=DefaultSignModes"), "anchor", "app/params", "MakeEncodingConfig not found")
 	}
@@ -422,6 +425,25 @@ func checkC14(p *Prog, r *Report) {
 								t := so.Of(ret.Results[0])
 								if !(t.Op == "res" && len(t.Args) == 1 && t.Args[0].IsCall("encoding/json.Marshal")) && !t.IsCall("encoding/json.Marshal") {
 									shapeOK = false
+									continue
+								}
+								// … and what is marshalled is a plain projection of the receiver: an element, a conversion, a field —
+								// nothing computed (no helper call, no merge of alternatives)
+								mc := t
+								if mc.Op == "res" {
+									mc = mc.Args[0]
+								}
+								for _, a := range mc.Args {
+									a.Walk(func(x *Term) {
+										if x.Op == "call" {
+											if g := staticCalleeOfTerm(p, x); g != nil && p.IsGenerated(g) && strings.HasPrefix(g.Name(), "Get") {
+												return // generated (oneof) getter: a field read
+											}
+										}
+										if x.Op == "call" || x.Op == "phi" || strings.HasPrefix(x.Op, "unknown") || x.Op == "outparam" {
+											shapeOK = false
+										}
+									})
 								}
 							}
 						}
